@@ -115,7 +115,9 @@ def main(argv=None):
     results, problems = run_workers(prop, a.tier, seed, mod)
     agg = merge(results)
     listed = known.load()
-    evdir = os.path.join(env.VERIF, "evidence")
+    # DYNMON_EVIDENCE_DIR redirects the output when the monitors are validated against a mutated scratch
+    # copy of the repository (tools/mutants.py); the registered checks always write /verif/evidence
+    evdir = os.environ.get("DYNMON_EVIDENCE_DIR") or os.path.join(env.VERIF, "evidence")
     os.makedirs(os.path.join(evdir, "replays"), exist_ok=True)
     for fn in os.listdir(os.path.join(evdir, "replays")):
         if fn.startswith(prop + "-"):
